@@ -865,8 +865,15 @@ def eval_dyad_reshape(a, b, backend):
 
     """
     np_backend = backend.np
-    j = isinstance(b, str)
+    j = isinstance(b, str) and not isinstance(b, (KGSym, KGChar))
     b = backend.str_to_chr_arr(b) if j else b
+    if isinstance(b, str):
+        # a symbol or character atom fills the new array as it is
+        if not np_backend.isarray(a) and a == 0:
+            return b
+        r = numpy.empty(tuple(int(x) for x in a) if np_backend.isarray(a) else (int(a),), dtype=object)
+        r.fill(b)
+        return r
     if np_backend.isarray(a):
         if np_backend.isarray(b):
             y = np_backend.where(a < 0)[0]
